@@ -16,7 +16,9 @@ EXPLANATION = (
     "exists in the writer's key set for every union variant that can reach the read (keys of one variant "
     "are read only under a test of that variant's id); R16.3 every value is read from the key that is the "
     "path it is stored under (30+ leaves); R16.4 the CLI's final write and the staged writes use format "
-    "'fits' with overwrite=True and the reader opens HDU 1. NOT decided: bit-for-bit column round trip and "
+    "'fits' with overwrite=True and the reader opens HDU 1; R16.5 (on the value graph of the whole run command) "
+    "compute() is given the configuration object the command loaded and overrode, every results table is created "
+    "from that object, and every value compute() returns / every table written is such a table. NOT decided: bit-for-bit column round trip and "
     "header value fidelity (astropy FITS I/O on values). Optional sections set to None are outside the "
     "reader's domain (noted, not armed)."
 )
